@@ -7,7 +7,8 @@
    media directory, f1, f2 = files, x = a directory that does not exist); the harness only renames
    them (ppt, slides, media, image1.png ..) and picks kinds / pixel sizes.
    The machine then extracts the case the way the repaired library does, ONE CODE STEP PER ACTION:
-     NextAnchor  take the next anchor (document order), pick the relationship that carries its id
+     NextAnchor  take the next anchor (document order); formats that return a reference once skip an anchor
+                 whose reference was already returned; pick the relationship that carries its id
                  (the last one with that Id wins, as in a dict), start the walk
      Segment     consume one path segment (Images!Step)
      Lookup      look the resolved name up among the parts, emit a numbered record or nothing
@@ -25,8 +26,8 @@ CONSTANTS Mode,         \* "cases" | "paths"
           MaxAnchors, NUnits, MaxSegs,
           Dev           \* deviations switched on in the machine (theorem: {})
 
-VARIABLES case, pc, ai, stk, rest, raw, cur, out, cnt, lastu, res
-vars == <<case, pc, ai, stk, rest, raw, cur, out, cnt, lastu, res>>
+VARIABLES case, pc, ai, stk, rest, raw, cur, out, cnt, lastu, res, seen
+vars == <<case, pc, ai, stk, rest, raw, cur, out, cnt, lastu, res, seen>>
 
 Base == CASE Family = "opc2" -> <<"d", "s">> [] Family \in {"opc1", "epub"} -> <<"d">> [] OTHER -> <<>>
 Locs == CASE Family \in {"opc2", "opc1", "epub"} -> {"sub", "sib"} [] OTHER -> {"sub"}
@@ -81,6 +82,12 @@ Cands(cs, i) ==
       [] cs[i].link = "dup"   -> cs[i - 1].cands \o cs[i].cands
       [] OTHER -> IF i < Len(cs) /\ cs[i + 1].link = "dup" THEN cs[i].cands \o cs[i + 1].cands ELSE cs[i].cands
 
+\* identity of the reference behind anchor i: the relationship id where relationships exist (reuse / dup share
+\* the previous anchor's), otherwise the href itself (equal targets = one href / one manifest item)
+RefOf(cs, i) ==
+    IF HasRels THEN (IF cs[i].link = "own" THEN i ELSE i - 1)
+    ELSE CHOOSE j \in 1..i : cs[j].cands = cs[i].cands /\ \A k \in 1..(j - 1) : cs[k].cands # cs[i].cands
+
 Orders(n) == IF OrderMatters /\ n >= 2 THEN { [i \in 1..n |-> i], [i \in 1..n |-> n + 1 - i] } ELSE { [i \in 1..n |-> i] }
 
 Alphabet == {"..", ".", "x", "m", "f1"}
@@ -91,9 +98,10 @@ FmtOf == CASE Family = "opc2" -> "pptx" [] Family = "opc1" -> "docx" [] Family =
            [] Family = "epub" -> "epub" [] OTHER -> "pdf"
 \* the machine works on the header form: media kinds / sizes are irrelevant to it (the harness picks them)
 Full(c) == [fmt |-> FmtOf, base |-> c.base, order |-> c.order,
-            media |-> [k \in DOMAIN c.media |-> [part |-> c.media[k].part, kind |-> "png", w |-> 1, h |-> 1]],
+            media |-> [k \in DOMAIN c.media |-> [part |-> c.media[k].part, kind |-> "png", w |-> 1, h |-> 1,
+                                                  fill |-> FALSE, noext |-> FALSE]],
             anchors |-> [i \in DOMAIN c.anchors |-> [unit |-> c.anchors[i].unit, cands |-> c.anchors[i].cands,
-                                                     fw |-> 0, fh |-> 0]]]
+                                                     ref |-> c.anchors[i].ref, fw |-> 0, fh |-> 0]]]
 
 Init ==
     /\ IF Mode = "cases"
@@ -101,13 +109,14 @@ Init ==
               \E cs \in [1..n -> Choices(ml)], us \in UnitSeqs(n), o \in Orders(n) :
                  /\ LinkOK(cs, us)
                  /\ case = [base |-> Base, media |-> MediaOf(ml), order |-> o,
-                            anchors |-> [i \in 1..n |-> [unit |-> us[i], cands |-> Cands(cs, i), link |-> cs[i].link]]]
+                            anchors |-> [i \in 1..n |-> [unit |-> us[i], cands |-> Cands(cs, i), link |-> cs[i].link,
+                                                          ref |-> RefOf(cs, i)]]]
        ELSE \E b \in PathBases, t \in PathTargets :
                  case = [base |-> b, media |-> <<>>, order |-> <<1>>,
-                         anchors |-> << [unit |-> 1, link |-> "own",
+                         anchors |-> << [unit |-> 1, link |-> "own", ref |-> 1,
                                          cands |-> << [mode |-> "embed", abs |-> t.abs, segs |-> t.segs, to |-> 0] >>] >>]
     /\ pc = "next" /\ ai = 0 /\ stk = <<>> /\ rest = <<>> /\ raw = FALSE /\ cur = 0
-    /\ out = <<>> /\ cnt = 0 /\ lastu = 0 /\ res = <<>>
+    /\ out = <<>> /\ cnt = 0 /\ lastu = 0 /\ res = <<>> /\ seen = {}
 
 It == Iter(Full(case), Dev)
 Restart == "Pptx!ImageNumberRestartsPerSlide" \in Dev \/ "Pdf!ImageNumberRestartsPerPage" \in Dev
@@ -115,7 +124,10 @@ Restart == "Pptx!ImageNumberRestartsPerSlide" \in Dev \/ "Pdf!ImageNumberRestart
 \* the model's pixel size is the media's (1 x 1 here); two deviations report something else
 Px == IF "Odf!FrameSizeAsPixelSize" \in Dev \/ "Epub!NoPixelSize" \in Dev THEN 0 ELSE 1
 Emit(m, a) ==
-    out' = Append(out, Rec(m, FALSE, KindCt("png"), Px, Px, cnt + 1, a.unit)) /\ cnt' = cnt + 1
+    out' = Append(out, Rec(m, FALSE, KindCt("png"), Px, Px, cnt + 1, a.unit)) /\ cnt' = cnt + 1 /\ seen' = seen \cup {a.ref}
+
+\* the reference of this anchor was already returned (formats that return a reference once)
+Again(a) == FmtOf \in OncePerRef /\ a.ref \in seen /\ "Shared!ReferenceReturnedAgain" \notin Dev
 
 NextAnchor ==
     /\ pc = "next" /\ ai < Len(case.anchors)
@@ -124,24 +136,28 @@ NextAnchor ==
            t == Last(a.cands)
            c0 == IF Restart /\ a.unit # lastu THEN 0 ELSE cnt
        IN /\ cur' = It[ai + 1] /\ lastu' = a.unit
-          /\ IF t.mode = "embed"
+          /\ IF Again(a)
+             THEN cnt' = c0 /\ pc' = "next" /\ UNCHANGED <<stk, rest, raw, res, out, seen>>
+             ELSE IF t.mode = "embed"
              THEN LET s == Start(case.base, t, Dev) IN
                   /\ stk' = s.stk /\ rest' = s.rest /\ raw' = s.raw /\ pc' = "walk"
-                  /\ cnt' = c0 /\ UNCHANGED <<out, res>>
+                  /\ cnt' = c0 /\ UNCHANGED <<out, res, seen>>
              ELSE IF t.mode = "inline"
              THEN /\ out' = Append(out, Rec(t.to, FALSE, KindCt("png"), Px, Px, c0 + 1, a.unit)) /\ cnt' = c0 + 1
+                  /\ seen' = seen \cup {a.ref}
                   /\ pc' = "next" /\ UNCHANGED <<stk, rest, raw, res>>
              ELSE \* external reference: nothing to read; as-built ODF returns a record without bytes
                   /\ IF "Odf!ExternalLinkReturnedEmpty" \in Dev
                      THEN out' = Append(out, Rec(0, TRUE, "", 0, 0, c0 + 1, a.unit)) /\ cnt' = c0 + 1
-                     ELSE out' = out /\ cnt' = c0
+                          /\ seen' = seen \cup {a.ref}
+                     ELSE out' = out /\ cnt' = c0 /\ seen' = seen
                   /\ pc' = "next" /\ UNCHANGED <<stk, rest, raw, res>>
     /\ UNCHANGED case
 
 Segment ==
     /\ pc = "walk" /\ rest # <<>>
     /\ stk' = Step(stk, Head(rest), raw, Dev) /\ rest' = Tail(rest)
-    /\ UNCHANGED <<case, pc, ai, raw, cur, out, cnt, lastu, res>>
+    /\ UNCHANGED <<case, pc, ai, raw, cur, out, cnt, lastu, res, seen>>
 
 Lookup ==
     /\ pc = "walk" /\ rest = <<>>
@@ -150,13 +166,13 @@ Lookup ==
            a == case.anchors[cur]
        IN IF m # 0 THEN Emit(m, a)
           ELSE IF "Odg!MissingReturnedEmpty" \in Dev
-          THEN out' = Append(out, Rec(0, TRUE, "", 0, 0, cnt + 1, a.unit)) /\ cnt' = cnt + 1
-          ELSE IF "Ods!MissingCountsInNumbering" \in Dev THEN out' = out /\ cnt' = cnt + 1
-          ELSE UNCHANGED <<out, cnt>>
+          THEN out' = Append(out, Rec(0, TRUE, "", 0, 0, cnt + 1, a.unit)) /\ cnt' = cnt + 1 /\ seen' = seen \cup {a.ref}
+          ELSE IF "Ods!MissingCountsInNumbering" \in Dev THEN out' = out /\ cnt' = cnt + 1 /\ seen' = seen
+          ELSE UNCHANGED <<out, cnt, seen>>
     /\ UNCHANGED <<case, ai, stk, rest, raw, cur, lastu>>
 
 Finish == pc = "next" /\ ai = Len(case.anchors) /\ pc' = "done"
-          /\ UNCHANGED <<case, ai, stk, rest, raw, cur, out, cnt, lastu, res>>
+          /\ UNCHANGED <<case, ai, stk, rest, raw, cur, out, cnt, lastu, res, seen>>
 
 Next == NextAnchor \/ Segment \/ Lookup \/ Finish
 Spec == Init /\ [][Next]_vars
